@@ -12,6 +12,7 @@ TARGETS = [
     ('sequences', 'sequences.FixedLengthSequenceEdit.__init__'), ('sequences', 'sequences.FixedLengthSequenceEdit.edits'),
     ('nodes', 'graphtage.KeyValuePairNode.edits'), ('nodes', 'graphtage.KeyValuePairEdit.__init__'),
     ('nodes', 'graphtage.ListNode.edits'),
+    ('builders', 'builder.BasicBuilder.build_list'), ('builders', 'graphtage.ListNode.__init__'),
 ]
 TRUSTED = ['interface E(X) for child.edits(...)', 'argparse Namespace modelled symbolically',
            'EditDistance / FixedLengthSequenceEdit constructors are used through their contracts in ListNode.edits']
